@@ -68,6 +68,13 @@ def operators(seed, tier):
     reg("Product[ScalarMul,Kronecker2]", lambda: 3.0 * ops.Kronecker(D(S(32, "a")), D(S(32, "b"))))
     reg("Sum[Kronecker2,Diagonal]", lambda: ops.Kronecker(D(S(32, "a")), D(S(32, "b"))) + ops.Diagonal(np.linspace(1.0, 2.0, 1024)))
     reg("Sum[BlockDiag,Identity]", lambda: ops.BlockDiag(D(S(6, "a")), multiplicities=[200]) + ops.Identity((1200, 1200), np.float64))
+    # the same structures without per-factor declarations: plain factors, and one declaration on the whole operator
+    Dp = lambda M: ops.Dense(M.astype(np.float64))  # noqa: E731
+    reg("Kronecker2[plain 32x32,32x32]", lambda: ops.Kronecker(Dp(S(32, "a")), Dp(S(32, "b"))))
+    reg("PSD(Kronecker2[plain 32x32,32x32])", lambda: cola.PSD(ops.Kronecker(Dp(S(32, "a")), Dp(S(32, "b")))))
+    reg("Kronecker2[PSD 32x32, Diagonal 32]", lambda: ops.Kronecker(D(S(32, "a")), ops.Diagonal(np.linspace(1., 2., 32))))
+    reg("BlockDiag[plain 6x6 x150, 10x10 x20]", lambda: ops.BlockDiag(Dp(S(6, "a")), Dp(S(10, "b")), multiplicities=[150, 20]))
+    reg("PSD(BlockDiag[plain 6x6 x200])", lambda: cola.PSD(ops.BlockDiag(Dp(S(6, "a")), multiplicities=[200])))
     if tier == "thorough":
         reg("Kronecker3[10x10x3]", lambda: ops.Kronecker(D(S(10, "a")), D(S(10, "b")), D(S(10, "c"))))
         reg("Kronecker4[6x6x4]", lambda: ops.Kronecker(D(S(6, "a")), D(S(6, "b")), D(S(6, "c")), D(S(6, "d"))))
